@@ -53,7 +53,8 @@ def shapes_of(toks):
                         j = j if j >= 0 else 0
                         a = ops[j]
                     if a[1] in ('int', 'intn', 'pushint', 'pushintn', 'intc'):
-                        tags.add('constLeft')
+                        # Fee is repaired (F02b); GroupSize / GroupIndex are the known finding F02
+                        tags.add('constLeftFee' if b[2][-1] == 'Fee' else 'constLeft')
         if op in ('b', 'bz', 'bnz') and labels.get(args[0], n) < k:
             lo = labels[args[0]]
             if any(ops[j][1] in ('gtxn', 'gtxnimm', 'gtxns', 'gtxnstk') for j in range(lo, k)):
